@@ -29,6 +29,24 @@ def run_check(worktree: str, pid: str, tier: str) -> tuple[int, list[str]]:
     return proc.returncode, keys
 
 
+BASE_KEYS: dict[tuple[str, str, str], set[str]] = {}
+
+
+def base_keys(base: str, check: str, tier: str) -> set[str]:
+    """Violation keys the check reports on the seed's (older) base commit WITHOUT the seed: defects fixed since then.
+    They are subtracted, so a seed applied on its base commit is only credited with what the seed itself causes."""
+    if (base, check, tier) not in BASE_KEYS:
+        worktree = f"/tmp/vf-seedbase-{os.getpid()}"
+        subprocess.run(["git", "-C", "/repo", "worktree", "add", "-q", "--detach", worktree, base], check=True)
+        try:
+            _rc, keys = run_check(worktree, check, tier)
+        finally:
+            subprocess.run(["git", "-C", "/repo", "worktree", "remove", "--force", worktree])
+        BASE_KEYS[(base, check, tier)] = set(keys)
+        print(f"  (base commit {base[:7]} alone: {check} reports {sorted(keys) or 'nothing'})")
+    return BASE_KEYS[(base, check, tier)]
+
+
 def main() -> int:
     parser = argparse.ArgumentParser()
     parser.add_argument("--all-checks", action="store_true")
@@ -47,10 +65,11 @@ def main() -> int:
         try:
             patch = str(ROOT / "seeded" / seed / "patch.diff")
             applied = subprocess.run(["git", "-C", worktree, "apply", patch], capture_output=True)
+            on_base = None
             if applied.returncode != 0:
                 applied = subprocess.run(["git", "-C", worktree, "apply", "--3way", patch], capture_output=True)
             if applied.returncode != 0:
-                base = json.loads((ROOT / "seeded" / seed / "meta.json").read_text()).get("base_commit", "0ed460a")
+                base = on_base = json.loads((ROOT / "seeded" / seed / "meta.json").read_text()).get("base_commit", "0ed460a")
                 subprocess.run(["git", "-C", worktree, "reset", "-q", "--hard"])
                 subprocess.run(["git", "-C", worktree, "checkout", "-q", "--detach", base])
                 applied = subprocess.run(["git", "-C", worktree, "apply", patch], capture_output=True)
@@ -62,6 +81,10 @@ def main() -> int:
             detected = {}
             for check in (ALL if args.all_checks else [pid]):
                 rc, keys = run_check(worktree, check, args.tier)
+                if on_base:
+                    keys = [k for k in keys if k not in base_keys(on_base, check, args.tier)]
+                    if rc == 1 and not keys:
+                        rc = 0
                 if rc == 1:
                     detected[check] = keys
                 elif rc != 0:
